@@ -24,6 +24,9 @@ type Obligation struct {
 	Goal   Term
 	Info   map[string]Term // terms of interest for model read-back
 	Cand   *Assumption     // if this obligation decides a Houdini candidate
+	Tree   *GoalTree       // the goal as a decision tree (optional; same meaning as Goal)
+	fullGoal Term
+	seq      int // position in generation order (1-based)
 	Result string          // unsat|sat|unknown
 	Solver string
 	TimeMs int64
@@ -31,6 +34,7 @@ type Obligation struct {
 }
 
 type Assumption struct {
+	MinObl    int // a cut: available to obligations with seq >= MinObl only (0: to all)
 	ID        int
 	Term      Term
 	Candidate bool
@@ -59,6 +63,11 @@ var immutableCells = map[string]bool{"cell:env_Env": true}
 type mapLenRec struct {
 	m, l Term
 	dom  *HeapV
+}
+
+type readsAtSnap struct {
+	st    *State
+	block *ssa.BasicBlock
 }
 
 type ownedCell struct {
@@ -154,6 +163,7 @@ type Tr struct {
 	noContracts bool
 	noTimeouts bool
 	globalStoreGuard func(a *Act, st *State, g *ssa.Global) Term
+	quietReads       bool
 	prop      string
 	piTerm    Term
 	coverResult string
@@ -325,6 +335,20 @@ func (tr *Tr) heapOf(st *State, c *Component) *HeapV {
 			}
 		}
 	}
+	if st.prov != nil && st.prov.kind != "join" && st.prov.prev != nil {
+		if addrs := tr.eng.frozenAddrs[c.name]; len(addrs) > 0 && tr.eng.frozenActive(tr.prop) {
+			// frozen package globals survive every havoc (calls, loops); see the frozen directive
+			if before := tr.heapOf(st.prov.prev, c); before != h {
+				h = tr.heapSel(func(key []Term) Term {
+					var ds []Term
+					for _, a := range addrs {
+						ds = append(ds, Eq(key[0], a))
+					}
+					return Or(ds...)
+				}, before, h)
+			}
+		}
+	}
 	if st.prov != nil {
 		st.prov.resolved[c.name] = h
 	}
@@ -372,6 +396,7 @@ type retEdge struct {
 }
 
 type Act struct {
+	readsAt  map[int][]readsAtSnap // loop ordinal -> captured states (readsat clauses)
 	tr       *Tr
 	fn       *ssa.Function
 	parent   *Act
